@@ -34,6 +34,7 @@ structure DState where
   touched : List String := []        -- dump keys the last modelled plan touched
   oracle : List (OQ × Int) := []
   lastTx : Option LastTx := none
+  begin : BeginInfo := { height := 0, byz := [], signed := [] }
   nCommits : Nat := 0
   nOps : Nat := 0
   nModelled : Nat := 0
@@ -226,6 +227,7 @@ partial def loop (h : IO.FS.Stream) (out : IO.FS.Stream) (ds : DState) : IO Unit
     out.flush
     loop h out { ds with params := p }
   | "S" :: kind :: _ =>
+    let before : Option State := if kind == "begin" || kind == "end" then some (State.ofDump ds.dump) else none
     let (d, chs) ← readDelta h ds.dump []
     let keys := chs.map (·.key)
     let mut ds := { ds with dump := d, nOps := ds.nOps + 1 }
@@ -244,7 +246,24 @@ partial def loop (h : IO.FS.Stream) (out : IO.FS.Stream) (ds : DState) : IO Unit
       out.putStrLn s!"OK {kind} coins={st.coins.length} base={baseTotal st} emission={st.emission} modelled={ds.nModelled} unmodelled={ds.nUnmodelled} skipped={ds.nStaleSkipped} oracle={ds.nOracle}"
       -- resync the model with the committed Go state (EndBlock is not modelled yet)
       ds := { ds with committed := some st, nCommits := ds.nCommits + 1, model := some { st with rewardsPool := 0 }, touched := [], oracle := [], staleOther := false, pendingMerge := false }
+    else if kind == "end" then
+      match before with
+      | some old =>
+        let new := State.ofDump d
+        let cap : Int := 10000000000 * 1000000000000000000
+        for v in endMonitor old new ds.begin.signed (decide (old.emission ≥ cap)) (ds.begin.height % ds.params.period == 0) do
+          out.putStrLn v
+      | none => pure ()
     else if kind == "begin" then
+      match before with
+      | some old =>
+        let new := State.ofDump d
+        let deltas := chs.filterMap (fun c => match words c.key with
+          | ["b", a, cc] => some ((hexNat a, natD cc), amountOf c.key c.new - amountOf c.key c.old)
+          | _ => none)
+        for v in beginMonitor ds.params.unbond old new ds.begin deltas do
+          out.putStrLn v
+      | none => pure ()
       -- BeginBlock is modelled only as "fee pool := 0"; anything it changed on the live projection puts the model out of sync
       match ds.model with
       | some m =>
@@ -272,9 +291,19 @@ partial def loop (h : IO.FS.Stream) (out : IO.FS.Stream) (ds : DState) : IO Unit
     loop h out ds
   | "B" :: _ =>
     let a := kv l
+    let votes := (kvGet a "votes").splitOn "," |>.filterMap (fun x => match x.splitOn ":" with
+      | [ad, sg] => some (hexNat ad, sg == "1")
+      | _ => none)
+    let byz := ((kvGet a "byz").splitOn ",").filter (· != "") |>.map hexNat
+    let bi : BeginInfo := { height := natD (kvGet a "h"), byz := byz, signed := (votes.filter (·.2)).map (·.1), unsigned := (votes.filter (fun x => !x.2)).map (·.1) }
     out.putStrLn "."
     out.flush
-    loop h out { ds with block := natD (kvGet a "h"), nOps := ds.nOps + 1 }
+    loop h out { ds with block := natD (kvGet a "h"), nOps := ds.nOps + 1, begin := bi }
+  | "X" :: "divergence" :: rest =>
+    out.putStrLn ("VIOL C09 cache-vs-disk " ++ " ".intercalate rest)
+    out.putStrLn "."
+    out.flush
+    loop h out ds
   | "D" :: _ =>
     let a := kv l
     let goCode := natD (kvGet a "code")
